@@ -580,25 +580,29 @@ func nonceOf(t tcase, a common.Address) uint64 {
 	return 0
 }
 
-var modelFork = []int{lvCancun, lvPrague, lvOsaka}
+var modelFork = []int{lvCancun, lvPrague, lvOsaka, lvOsaka} // fork 3 = Osaka + ExtraEips 8024
 
 func run(c Sx) Result {
 	t := parseCase(c)
 	res := Result{}
 	var fails []string
-	main := execute(t, modelFork[t.fork%3])
+	mainLevel, main8024 := modelFork[t.fork%4], t.fork%4 == 3
+	mainName := forkNames[mainLevel]
+	if main8024 {
+		mainName += "+8024"
+	}
+	main := executeMode(t, mainLevel, false, main8024)
 	if main.overrun {
 		panic("hxlib: step budget exceeded")
 	}
 	if main.panicked != "" {
 		res.Obs = L(I(-2))
-		fails = append(fails, "panic under "+forkNames[modelFork[t.fork%3]]+": "+main.panicked)
+		fails = append(fails, "panic under "+mainName+": "+main.panicked)
 	} else {
 		res.Obs = observe(t, main)
 	}
 	// resource oracle under every rule set
-	check := func(level int, o runOut) {
-		nm := forkNames[level]
+	check := func(level int, nm string, has8024 bool, o runOut) {
 		if o.panicked != "" {
 			fails = append(fails, "panic under "+nm+": "+o.panicked)
 			return
@@ -623,17 +627,48 @@ func run(c Sx) Result {
 				fails = append(fails, fmt.Sprintf("%s: state accumulators: reservoir %d + used %d - spilled %d != state gas given %d",
 					nm, b.StateGas, b.UsedStateGas, b.Spilled, t.gas-given))
 			}
+			// neither dimension nor the total may come back larger than it went in; the outermost
+			// frame cannot have used a negative amount of state gas (GasBudget.Used must not underflow)
+			if b.StateGas > t.gas-given {
+				fails = append(fails, fmt.Sprintf("%s: state reservoir grew: %d returned > %d given", nm, b.StateGas, t.gas-given))
+			}
+			if b.ExecutionGas+b.StateGas > t.gas {
+				fails = append(fails, fmt.Sprintf("%s: total gas returned %d > %d given", nm, b.ExecutionGas+b.StateGas, t.gas))
+			}
+			if b.UsedStateGas < 0 {
+				fails = append(fails, fmt.Sprintf("%s: negative state gas usage %d of the outermost frame", nm, b.UsedStateGas))
+			}
+			if level < 14 && (b.StateGas != 0 || b.UsedStateGas != 0 || b.Spilled != 0) {
+				fails = append(fails, fmt.Sprintf("%s: state-gas dimension used before Amsterdam: %v", nm, *b))
+			}
+			// EIP-8037: the state gas used pays at least for the state growth that survived
+			if level >= 14 && o.err == nil {
+				if lb := stateGrowthGas(t, o); b.UsedStateGas < int64(lb) {
+					fails = append(fails, fmt.Sprintf("%s: state gas used %d < %d owed for the surviving state growth", nm, b.UsedStateGas, lb))
+				}
+			}
+		}
+		if t.probe != nil {
+			fails = append(fails, t.probe.check(t, level, nm, has8024, o)...)
 		}
 	}
+	check(mainLevel, mainName, main8024 || mainLevel >= 14, main)
 	for level := range forkNames {
-		if level == modelFork[t.fork%3] {
-			check(level, main)
+		if t.probe != nil && t.probe.mask&(1<<uint(level)) == 0 {
+			continue
 		}
-		o := executeMode(t, level, true)
+		o := executeMode(t, level, true, false)
 		if o.overrun {
 			panic("hxlib: step budget exceeded")
 		}
-		check(level, o)
+		check(level, forkNames[level], level >= 14, o)
+	}
+	if main8024 {
+		o := executeMode(t, mainLevel, true, true)
+		if o.overrun {
+			panic("hxlib: step budget exceeded")
+		}
+		check(mainLevel, mainName, true, o)
 	}
 	if len(fails) > 0 {
 		if len(fails) > 3 {
@@ -643,7 +678,7 @@ func run(c Sx) Result {
 	}
 	// tags
 	res.Tags = append(res.Tags, fmt.Sprintf("status%d", errClass(main.err)), []string{"call", "create"}[t.kind],
-		"fork"+forkNames[modelFork[t.fork%3]])
+		"fork"+mainName)
 	if main.maxDepth >= 2 {
 		res.Tags = append(res.Tags, "nested")
 	}
@@ -661,7 +696,7 @@ func run(c Sx) Result {
 	}
 	for _, a := range t.pre {
 		if len(a.code) == 23 && a.code[0] == 0xef && a.code[1] == 1 && a.code[2] == 0 && main.addrs[addrOf(a.addr)] {
-			if t.fork%3 >= 1 {
+			if t.fork%4 >= 1 {
 				res.Tags = append(res.Tags, "delegation_resolved")
 			} else {
 				res.Tags = append(res.Tags, "designator_called_cancun")
@@ -674,6 +709,9 @@ func run(c Sx) Result {
 	}
 	for op := range main.ops {
 		res.Tags = append(res.Tags, fmt.Sprintf("op%02x", op))
+	}
+	if t.probe != nil {
+		res.Tags = append(res.Tags, t.probe.tags()...)
 	}
 	res.NonTrivial = main.steps >= 3
 	return res
